@@ -155,3 +155,5 @@ func fmtErr(err error) string {
 	}
 	return fmt.Sprintf("%v", err)
 }
+
+func nil2script(rev int) *simnet.Script { return &simnet.Script{Rev: rev} }
